@@ -290,3 +290,13 @@ Proof. exact (pderiv_pmul AQ_RingLaws). Qed.
 Check pderiv_product_Qc : forall (p q dp dq : list AQ), pderiv p = Ok dp -> pderiv q = Ok dq ->
   pderiv (pmul p q) = Ok (padd (pmul dp q) (pmul p dq)).
 Print Assumptions pderiv_product_Qc.
+
+(* ---- tie to the source by proof (package r2c): the functions regenerated from /repo/src on this run by the Rust-subset ->
+   Gallina translator (driver/rust2coq.py -> gen/Src*.v) are equal, for all arguments, to the hand-written model functions
+   the theorems above are about (Proofs/SrcEq*.v).  A change of a loop bound, index, operator or statement order in the
+   source breaks the corresponding src_<function> lemma and with it this obligation. *)
+From OV Require Proofs.SrcEqPoly.
+Theorem model_is_source_C11_Poly : forall A : Arith, @SrcEqPoly.model_is_source_Poly A.
+Proof. intros A. exact SrcEqPoly.model_is_source_Poly_lemma. Qed.
+Check model_is_source_C11_Poly : forall A : Arith, @SrcEqPoly.model_is_source_Poly A.
+Print Assumptions model_is_source_C11_Poly.
